@@ -236,7 +236,9 @@ def histories(draw, force=None):
         # the stratum's step pattern closes the history: write, the wanted kind of change, write again
         steps = steps[:5]
         steps.append({'do': 'write', 'slot': 0, 'w': {}})
-        if force == 'window':
+        if force == 'reads':
+            pass
+        elif force == 'window':
             from vf.spec.strategies import min_rows
             rows = min_rows(specs[0]['lfs'][0])
             f = draw(st.integers(0, max(0, rows - 1)))
@@ -244,7 +246,16 @@ def histories(draw, force=None):
         else:
             steps.append({'do': 'mutate', 'slot': 0, 'm': draw(mutation(specs[0], len(steps), want=force))})
             steps.append({'do': 'write', 'slot': 0, 'w': {}})
-    return {'kind': 'history', 'specs': specs, 'steps': steps}
+    case = {'kind': 'history', 'specs': specs, 'steps': steps}
+    if force == 'reads' or draw(st.integers(0, 3)) == 0:
+        # read-only looks at the logical file between add_* calls (lf.frames before the first channel exists ...): they are
+        # not part of the specification, so the fresh process does not make them
+        case['reads'] = {}
+        for k in range(n_slots):
+            n_ops = len(specs[k]['lfs'][0]['ops'])
+            case['reads'][str(k)] = [[0, draw(st.integers(0, n_ops)), draw(st.sampled_from(['channels', 'frames', 'origins']))]
+                                     for _ in range(draw(st.integers(1, 3)))]
+    return case
 
 
 HC_SPEC = {'kind': 'spec', 'hc': True, 'sul': {'vrl': 8192}, 'write': {}, 'lfs': [{'hdr': {}, 'ops': [
@@ -396,7 +407,7 @@ class C14(Property):
         from vf.core import stratified
         # free histories, plus one stratum per kind of change between two writes of one file
         return [('histories', histories(), (n // 2) // ctx.nshards)] + \
-            stratified('change', lambda k: histories(k), MUTATION_KINDS + ['window'], n // 2, ctx)
+            stratified('change', lambda k: histories(k), MUTATION_KINDS + ['window', 'reads'], n // 2, ctx)
 
     def run(self, case, ctx):
         dw.check_import_location()
@@ -415,7 +426,10 @@ class C14(Property):
             if do == 'build':
                 k = step['slot']
                 try:
-                    built[k] = B.build(specs[k], ctx.scratch)
+                    reads = (case.get('reads') or {}).get(str(k))
+                    if reads:
+                        labels.append('read-only-access-during-build')
+                    built[k] = B.build(dict(specs[k], reads=reads) if reads else specs[k], ctx.scratch)
                 except B.BuildError as be:
                     # the same build must fail in a fresh process too
                     oc, _, exc = self.fresh.write(specs[k])
